@@ -106,7 +106,8 @@ def model_state(p):
             except Exception:  # noqa: BLE001
                 val, cl = None, []
             imp.append({"p": pshort(part), "tree": tid, "val": val, "cl": cl})
-        cells.append(dict(a, imp_entries=imp, ntr_raw=bool(c._universe.not_truncated)))
+        cells.append(dict(a, imp_entries=imp, ntr_raw=bool(c._universe.not_truncated),
+                          set_in=[bool(getattr(c, attrs[k]).set_in_cell_block) for k in CLASSES]))
     insts = {id(getattr(p.cells, attrs[k])): k for k in CLASSES}
     data_inputs = []
     for d in p.data_inputs:
